@@ -74,14 +74,14 @@ K("C03", "K03-phrase-kernels", "c03_phrase_exists_count_slop", timeout=240,
   title="phrase position kernels = quadratic definition (exists / count / exists-with-slop)",
   functions=["phrase_scorer::intersection_exists", "intersection_count", "intersection_exists_with_slop"],
   bounds="sorted position lists <= 3 x 3, full u32 positions and slop; unwind 8")
-K("C03", "K03-phrase-inplace", "c03_phrase_intersection_inplace_len2", timeout=600,
+K("C03", "K03-phrase-inplace", "c03_phrase_intersection_inplace_2x2", timeout=600,
   title="in-place position intersection keeps exactly the common positions in order",
-  functions=["phrase_scorer::intersection"], bounds="<= 2 x 2 positions; unwind 8")
-K("C03", "K03-phrase-inplace-3", "c03_phrase_intersection_inplace_len3", timeout=1200, tiers="t", mem=30, title="in-place position intersection, 3 x 3", functions=["phrase_scorer::intersection"], bounds="<= 3 x 3 positions")
-K("C03", "K03-phrase-slop-count", "c03_phrase_count_with_slop_len2", timeout=600,
+  functions=["phrase_scorer::intersection"], bounds="2 x 2 positions (concrete lengths); unwind 6")
+K("C03", "K03-phrase-inplace-3", "c03_phrase_intersection_inplace_3x3", timeout=300, title="in-place position intersection, 3 x 3", functions=["phrase_scorer::intersection"], bounds="<= 3 x 3 positions")
+K("C03", "K03-phrase-slop-count", "c03_phrase_count_with_slop_2x2", timeout=600,
   title="count_with_slop > 0 iff some pair is within the slop; slop 0 = exact count",
-  functions=["phrase_scorer::intersection_count_with_slop"], bounds="<= 2 x 2 positions; unwind 8")
-K("C03", "K03-phrase-slop-count-3", "c03_phrase_count_with_slop_len3", timeout=1800, tiers="t", mem=40, title="count_with_slop, 3 x 3", functions=["phrase_scorer::intersection_count_with_slop"], bounds="<= 3 x 3 positions")
+  functions=["phrase_scorer::intersection_count_with_slop"], bounds="2 x 2 positions (concrete lengths); unwind 6")
+K("C03", "K03-phrase-slop-count-3", "c03_phrase_count_with_slop_3x3", timeout=300, title="count_with_slop, 3 x 3", functions=["phrase_scorer::intersection_count_with_slop"], bounds="<= 3 x 3 positions")
 K("C03", "K03-should-all-ids", "c03_should_union_with_removed_all_scorer_matches_all_ids", timeout=300,
   title="SHOULD-only disjunction with a removed match-all clause (scoring off) still enumerates every id 0..max_doc, independent of the live-doc count",
   functions=["boolean_weight::effective_should_scorer_for_union", "into_box_scorer", "AllScorer::{new,seek,advance}"], bounds="max_doc <= 1000, num_docs <= max_doc, 1..3 removed clauses")
@@ -276,8 +276,8 @@ K("C19", "K19-ws-utf8-2", "c19_whitespace_tokenizer_utf8_len2", timeout=900, tit
   functions=["WhitespaceTokenizer::token_stream", "WhitespaceTokenStream::{advance,search_token_end}"], bounds="all valid UTF-8 texts of 2 bytes", assumes=["token String pre-reserved"])
 K("C19", "K19-ws-utf8-3", "c19_whitespace_tokenizer_utf8_len3", timeout=1800, tiers="t", title="WhitespaceTokenizer, 3 bytes", functions=["WhitespaceTokenizer::*"], bounds="all valid UTF-8 texts of 3 bytes")
 K("C19", "K19-ranges", "c19_merge_overlapping_ranges_n2", timeout=600, title="snippet highlight ranges: merged output sorted, disjoint, same union",
-  functions=["snippet::merge_overlapping_ranges"], bounds="<= 2 ranges with bounds < 1000, sorted and deduplicated as sort_and_deduplicate_ranges returns them")
-K("C19", "K19-ranges-3", "c19_merge_overlapping_ranges_n3", timeout=1800, tiers="t", mem=40, title="snippet range merging, 3 ranges", functions=["snippet::merge_overlapping_ranges"], bounds="<= 3 ranges")
+  functions=["snippet::merge_overlapping_ranges"], bounds="2 ranges (concrete count) with bounds < 1000, sorted and deduplicated as sort_and_deduplicate_ranges returns them")
+K("C19", "K19-ranges-3", "c19_merge_overlapping_ranges_n3", timeout=300, title="snippet range merging, 3 ranges", functions=["snippet::merge_overlapping_ranges"], bounds="<= 3 ranges")
 K("C20", "K20-proxy-len2", "c20_footer_proxy_hashes_accepted_bytes_len2", timeout=900, title="FooterProxy hashes exactly the bytes the underlying writer accepted (short writes)",
   functions=["FooterProxy::{new,write}", "crc32fast::Hasher::{update,finalize} (baseline)"], bounds="2 bytes, <= 2 partial writes; unwind 6",
   stubs=["crc32fast::Hasher::new -> baseline (table) implementation"])
